@@ -26,6 +26,7 @@
 #endif
 
 #include <limits.h>
+#include <errno.h>
 #include <iconv.h>
 
 #include "misc.h"
@@ -286,6 +287,10 @@ print_unicode(iconv_t cd, int endian, int unicode, char **p, int n)
 	li = sizeof(in); lo = n;
 
 	r = iconv(cd, &ip, &li, &op, &lo);
+
+	/* Out of space is not a character we cannot represent. */
+	if ((size_t) -1 == r && E2BIG == errno)
+		return FALSE;
 
 	if ((size_t) -1 == r
 	    || (**p == 0x40 && unicode != 0x0040)) {
